@@ -32,3 +32,16 @@ class Old(mosaik_api_v3.Simulator):
         return time + 1
     def get_data(self, outputs):
         CALLS.append(('get_data', len(outputs))); return {}
+
+
+def _make(kind):
+    """two different simulator classes with the SAME module and qualified name (as a plug-in loader or a factory produces them)"""
+    if kind == 'new':
+        class Sim(New): pass
+    else:
+        class Sim(Old): pass
+    return Sim
+
+
+TWIN_NEW = _make('new')
+TWIN_OLD = _make('old')
